@@ -32,6 +32,9 @@ func (c *Ctx) references(scs []*Scenario, cfgs func(*Scenario) []Cfg) map[refKey
 			sp := soloSpec(fmt.Sprintf("ref/%s/%s", sc.Name, cfg), sc, cfg)
 			sp.Order.Pin = nil
 			sp.Budget = 400000000
+			// "rendered alone in a fresh process": state that a process writes only once (a
+			// lazily filled package-level table) is then written, and counted, in this run
+			sp.Fresh = true
 			specs = append(specs, sp)
 			refs = append(refs, &Ref{Spec: sp, Sc: sc, Cfg: cfg})
 		}
@@ -931,7 +934,7 @@ func (c *Ctx) stageInterleave(refs map[refKey]*Ref, keys []refKey) {
 		}
 		for k := 0; k < nw; k++ {
 			for variant := 0; variant < 2; variant++ {
-				ic := icase{spec: &Spec{ID: fmt.Sprintf("ilw/%d/%d/%d", pi, k, variant), Order: OrderPlan{Mode: "canon"}}, ks: []refKey{a, b}}
+				ic := icase{spec: &Spec{ID: fmt.Sprintf("ilw/%d/%d/%d", pi, k, variant), Order: OrderPlan{Mode: "canon"}, Fresh: true}, ks: []refKey{a, b}}
 				ic.spec.Tasks = [][]Op{docOps(refs[a].Sc, refs[a].Cfg, "", false), docOps(refs[b].Sc, refs[b].Cfg, "", false)}
 				ic.spec.PreemptW = []PreemptW{{Task: 0, K: k, To: 1}}
 				if variant == 1 {
@@ -1101,7 +1104,7 @@ func (c *Ctx) stageRace(refs map[refKey]*Ref, keys []refKey) {
 	pool := NewPool(c.Build.RaceWorker, c.Pool.args, []string{"GORACE=halt_on_error=1 exitcode=66"}, 4, 300*time.Second)
 	var specs []*Spec
 	for i := 0; i < rounds; i++ {
-		sp := &Spec{ID: fmt.Sprintf("race/%d", i), Order: OrderPlan{Mode: "canon"}, Free: true}
+		sp := &Spec{ID: fmt.Sprintf("race/%d", i), Order: OrderPlan{Mode: "canon"}, Free: true, Fresh: true}
 		nt := 4 + rng.Intn(5)
 		shared := rng.Intn(2) == 0
 		sharedGroup := ""
@@ -1169,7 +1172,7 @@ func (c *Ctx) stageRace(refs map[refKey]*Ref, keys []refKey) {
 		if refs[k].Res.Steps > 4000000 {
 			continue
 		}
-		sp := &Spec{ID: "race/sweep/" + k.Scenario + "/" + k.Cfg, Order: OrderPlan{Mode: "canon"}, Free: true}
+		sp := &Spec{ID: "race/sweep/" + k.Scenario + "/" + k.Cfg, Order: OrderPlan{Mode: "canon"}, Free: true, Fresh: true}
 		for t := 0; t < 3; t++ {
 			sp.Tasks = append(sp.Tasks, docOps(refs[k].Sc, refs[k].Cfg, "", false))
 		}
